@@ -1,3 +1,64 @@
-/- C06 — property theorems (being extended). -/
-import CppUtil.Model.Zipf
+/-
+  C06 — Zipf generators sample by inverse CDF and stay in [min, max].
+  `search` (Model/Zipf.lean) is `operator()` after the variate has been drawn; it is the definition the
+  driver executes (at `Float`, on the model's CDF, compared with every implementation sample).
+-/
+import CppUtil.Proofs.ZipfSearch
 import CppUtil.Gen.Zipf
+
+namespace CppUtil.Props
+open CppUtil CppUtil.Zipf
+
+/-- **Inverse CDF.**  For every value type with a strict total order (as a Boolean comparator), every
+    number of bins `n ≥ 1`, every CDF that is non-decreasing on `[0, n)` (ties allowed) and every variate
+    `u ≤ cdf (n−1)`: the returned bin `r` satisfies `0 ≤ r < n`, `u ≤ cdf r`, and `r = 0 ∨ cdf (r−1) ≤ u`. -/
+theorem c06_inverse_cdf {α : Type} (cdf : Int → α) (lt : α → α → Bool) (hlt : StrictTotal lt) (u : α) (n : Int)
+    (hn : 0 < n) (hmono : ∀ i j, 0 ≤ i → i ≤ j → j < n → le lt (cdf i) (cdf j))
+    (hu : le lt u (cdf (n - 1))) :
+    0 ≤ search cdf lt n u ∧ search cdf lt n u < n ∧ le lt u (cdf (search cdf lt n u)) ∧
+    (search cdf lt n u = 0 ∨ le lt (cdf (search cdf lt n u - 1)) u) :=
+  search_spec cdf lt hlt u n hn hmono hu
+
+/-- **Range.**  With `n = max − min + 1` bins the returned value `min + r` lies in `[min, max]`. -/
+theorem c06_in_range {α : Type} (cdf : Int → α) (lt : α → α → Bool) (hlt : StrictTotal lt) (u : α)
+    (mn mx : Int) (hle : mn ≤ mx)
+    (hmono : ∀ i j, 0 ≤ i → i ≤ j → j < mx - mn + 1 → le lt (cdf i) (cdf j))
+    (hu : le lt u (cdf (mx - mn + 1 - 1))) :
+    mn ≤ mn + search cdf lt (mx - mn + 1) u ∧ mn + search cdf lt (mx - mn + 1) u ≤ mx := by
+  have := search_spec cdf lt hlt u (mx - mn + 1) (by omega) hmono hu
+  omega
+
+/-- **Default-constructed generators** (one bin): the result is bin 0 for every variate not above the
+    single CDF entry -/
+theorem c06_one_bin {α : Type} (cdf : Int → α) (lt : α → α → Bool) (u : α) (hu : lt (cdf 0) u = false) :
+    search cdf lt 1 u = 0 := by
+  have h0 : loop cdf lt u 0 0 = 0 := by
+    unfold loop; simp
+  simp only [search, Int.sub_self, h0, hu]
+  rfl
+
+/-- tie G: the switch point between the stored exact bins and the formula -/
+theorem c06_switch : Gen.zipfExactBinNum = 100 := by decide
+
+/-- non-vacuity: a 4-bin table with a tie, searched at a breakpoint and between breakpoints -/
+def demoCdf (i : Int) : Nat := [1, 3, 3, 10].getD i.toNat 0
+def demoLt (a b : Nat) : Bool := decide (a < b)
+
+theorem demoLt_total : StrictTotal demoLt where
+  irrefl := by intro a; simp [demoLt]
+  trans := by intro a b c h1 h2; simp [demoLt] at *; omega
+  total := by intro a b h1 h2; simp [demoLt] at *; omega
+
+/-- the hypotheses of `c06_inverse_cdf` are satisfiable: the 4-bin table is monotone and 3 ≤ cdf 3 -/
+example : 0 ≤ search demoCdf demoLt 4 3 ∧ search demoCdf demoLt 4 3 < 4 ∧ le demoLt 3 (demoCdf (search demoCdf demoLt 4 3)) := by
+  have := c06_inverse_cdf demoCdf demoLt demoLt_total 3 4 (by omega)
+    (by
+      intro i j hi hij hj
+      have hi4 : i = 0 ∨ i = 1 ∨ i = 2 ∨ i = 3 := by omega
+      have hj4 : j = 0 ∨ j = 1 ∨ j = 2 ∨ j = 3 := by omega
+      rcases hi4 with rfl | rfl | rfl | rfl <;> rcases hj4 with rfl | rfl | rfl | rfl <;>
+        first | (exfalso; omega) | (simp [le, demoLt, demoCdf]))
+    (by simp [le, demoLt, demoCdf])
+  exact ⟨this.1, this.2.1, this.2.2.1⟩
+
+end CppUtil.Props
